@@ -1,7 +1,7 @@
 (* StoreTrace_proofs.v — the system-call programs against the big-step
    model (no fault), under every single injected fault (C15), and their
    footprint (C03). *)
-From Whawty Require Import Bytes Bytes_proofs Base64 Names Record Store StoreTrace.
+From Whawty Require Import Bytes Bytes_proofs Base64 Names Record Store StoreTrace StoreOps_proofs.
 From Coq Require Import ZifyN ZifyNat ZifyBool.
 Open Scope N_scope.
 
@@ -22,8 +22,1021 @@ Definition tmp_name_fresh (d : dirst) (o : oracle) : Prop :=
 
 Definition has_rename (evs : list event) : Prop := exists a b, In (ERename a b) evs.
 
+(* ------------------------------------------------------------------ *)
+(* Auxiliaries: one system call *)
+Definition bump (k : kind) (s : tstate) : tstate :=
+  {| t_dir := t_dir s; t_cnt := cnt_inc k (t_cnt s); t_ev := t_ev s |}.
+
+Definition terr (f : option fault) (k : kind) (s : tstate) : option errno :=
+  match f with
+  | Some ft => if kind_eqb k (f_kind ft) && Nat.eqb (cnt_get k (t_cnt s)) (f_occ ft)
+               then Some (f_errno ft) else None
+  | None => None
+  end.
+
+Lemma tick_eq f k s : tick f k s = (terr f k s, bump k s).
+Proof.
+  unfold tick, terr, bump. destruct f as [ft|]; [|reflexivity].
+  destruct (kind_eqb k (f_kind ft) && Nat.eqb (cnt_get k (t_cnt s)) (f_occ ft)); reflexivity.
+Qed.
+
+Lemma kind_eqb_refl k : kind_eqb k k = true.
+Proof. destruct k; reflexivity. Qed.
+
+Lemma kind_eqb_eq a b : kind_eqb a b = true -> a = b.
+Proof. destruct a, b; cbn; intros H; try reflexivity; discriminate. Qed.
+
+Lemma cnt_get_inc_eq k c : cnt_get k (cnt_inc k c) = S (cnt_get k c).
+Proof.
+  induction c as [|[k' n] c IH]; cbn [cnt_inc cnt_get].
+  - now rewrite kind_eqb_refl.
+  - destruct (kind_eqb k k') eqn:E; cbn [cnt_get]; rewrite E; auto.
+Qed.
+
+Lemma cnt_get_inc_ne k k' c : kind_eqb k' k = false -> cnt_get k' (cnt_inc k c) = cnt_get k' c.
+Proof.
+  intros H. induction c as [|[k2 n] c IH]; cbn [cnt_inc cnt_get].
+  - now rewrite H.
+  - destruct (kind_eqb k k2) eqn:E; cbn [cnt_get].
+    + apply kind_eqb_eq in E. subst k2. now rewrite H.
+    + now rewrite IH.
+Qed.
+
+(* the injected fault has already hit a call *)
+Definition fired (ft : fault) (c : list (kind * nat)) : Prop :=
+  (f_occ ft < cnt_get (f_kind ft) c)%nat.
+
+(* no call from here on fails *)
+Definition quiet (f : option fault) (c : list (kind * nat)) : Prop :=
+  match f with Some ft => fired ft c | None => True end.
+
+Lemma fired_inc ft k c : fired ft c -> fired ft (cnt_inc k c).
+Proof.
+  unfold fired. intros H. destruct (kind_eqb (f_kind ft) k) eqn:E.
+  - apply kind_eqb_eq in E. subst k. rewrite cnt_get_inc_eq. lia.
+  - now rewrite cnt_get_inc_ne.
+Qed.
+
+Lemma quiet_inc f k c : quiet f c -> quiet f (cnt_inc k c).
+Proof. destruct f as [ft|]; cbn [quiet]; auto using fired_inc. Qed.
+
+Lemma terr_quiet f k s : quiet f (t_cnt s) -> terr f k s = None.
+Proof.
+  destruct f as [ft|]; cbn [quiet terr]; [|reflexivity]. unfold fired. intros H.
+  destruct (kind_eqb k (f_kind ft)) eqn:E; [|reflexivity].
+  apply kind_eqb_eq in E. subst k. cbn [andb].
+  destruct (Nat.eqb (cnt_get (f_kind ft) (t_cnt s)) (f_occ ft)) eqn:E2; [|reflexivity].
+  apply Nat.eqb_eq in E2. lia.
+Qed.
+
+Lemma terr_some f k s e : terr f k s = Some e -> quiet f (cnt_inc k (t_cnt s)).
+Proof.
+  destruct f as [ft|]; cbn [quiet terr]; [|discriminate]. unfold fired.
+  destruct (kind_eqb k (f_kind ft)) eqn:E; [|discriminate]. cbn [andb].
+  destruct (Nat.eqb (cnt_get k (t_cnt s)) (f_occ ft)) eqn:E2; [|discriminate].
+  intros _. apply kind_eqb_eq in E. subst k. apply Nat.eqb_eq in E2.
+  rewrite cnt_get_inc_eq. lia.
+Qed.
+
+Lemma terr_none_None k s : terr None k s = None.
+Proof. reflexivity. Qed.
+
+(* ------------------------------------------------------------------ *)
+(* Auxiliaries: directory algebra *)
+Lemma dset_dset k v v' d : dset k v (dset k v' d) = dset k v d.
+Proof.
+  induction d as [|[k' w] d IH]; cbn [dset].
+  - now rewrite beq_refl.
+  - destruct (beq k k') eqn:E; cbn [dset].
+    + now rewrite beq_refl.
+    + now rewrite E, IH.
+Qed.
+
+Lemma same_store_refl d : same_store d d.
+Proof. unfold same_store. auto. Qed.
+
+Lemma same_store_trans a b c : same_store a b -> same_store b c -> same_store a c.
+Proof.
+  intros (A1 & A2 & A3) (B1 & B2 & B3). split; [|split].
+  - intros f Hf. now rewrite B1, A1.
+  - intros t. now rewrite B2, A2.
+  - intros x Hx. auto.
+Qed.
+
+Lemma same_store_eq a b : a = b -> same_store a b.
+Proof. intros ->. apply same_store_refl. Qed.
+
+Lemma tmp_kids_dset_tmp k d : tmp_kids (dset tmp_name (Dir k) d) = k.
+Proof. unfold tmp_kids. now rewrite dlookup_dset_eq. Qed.
+
+Lemma tmp_kids_dset_ne f v d : f <> tmp_name -> tmp_kids (dset f v d) = tmp_kids d.
+Proof. intros H. unfold tmp_kids. now rewrite dlookup_dset_ne. Qed.
+
+Lemma tmp_kids_dremove_ne f d : f <> tmp_name -> tmp_kids (dremove f d) = tmp_kids d.
+Proof. intros H. unfold tmp_kids. now rewrite dlookup_dremove_ne. Qed.
+
+Lemma tmp_children_dset_tmp k d : tmp_children (dset tmp_name (Dir k) d) = Some k.
+Proof. unfold tmp_children. now rewrite dlookup_dset_eq. Qed.
+
+Lemma tmp_children_dset_ne f v d : f <> tmp_name -> tmp_children (dset f v d) = tmp_children d.
+Proof. intros H. unfold tmp_children. now rewrite dlookup_dset_ne. Qed.
+
+Lemma tmp_children_kids d k : tmp_children d = Some k -> tmp_kids d = k /\ dlookup tmp_name d = Some (Dir k).
+Proof.
+  unfold tmp_children, tmp_kids. destruct (dlookup tmp_name d) as [[x|x]|]; try discriminate.
+  intros H. injection H as ->. auto.
+Qed.
+
+(* ------------------------------------------------------------------ *)
+(* os.Remove *)
+Definition rm_dir (l : loc) (d : dirst) : dirst :=
+  match l with
+  | LFile fname => dremove fname d
+  | LTmpFile t => match tmp_children d with
+                  | Some kids => dset tmp_name (Dir (aremove t kids)) d
+                  | None => d end
+  | _ => d
+  end.
+
+Lemma p_remove_cases f l s :
+  exists c',
+    (quiet f (t_cnt s) -> quiet f c') /\
+    (p_remove f l s = {| t_dir := t_dir s; t_cnt := c'; t_ev := t_ev s |} \/
+     p_remove f l s = {| t_dir := rm_dir l (t_dir s); t_cnt := c'; t_ev := EUnlink l :: t_ev s |}).
+Proof.
+  unfold p_remove. rewrite tick_eq. cbv beta iota zeta. rewrite tick_eq. cbv beta iota.
+  cbn [t_dir bump].
+  assert (Q1 : quiet f (t_cnt s) -> quiet f (cnt_inc KUnlink (t_cnt s))) by apply quiet_inc.
+  assert (Q2 : quiet f (t_cnt s) -> quiet f (cnt_inc KUnlink (cnt_inc KUnlink (t_cnt s)))).
+  { intros H. now apply quiet_inc, quiet_inc. }
+  destruct l as [fname|t| |].
+  - destruct (terr f KUnlink s) as [e1|].
+    + exists (cnt_inc KUnlink (cnt_inc KUnlink (t_cnt s))). split; [exact Q2|].
+      destruct (terr f KUnlink (bump KUnlink s)) as [e2|]; [left; reflexivity|].
+      destruct (dlookup fname (t_dir s)) as [[x|[|y k]]|]; try (left; reflexivity).
+      right. reflexivity.
+    + destruct (dlookup fname (t_dir s)) as [[x|k]|].
+      * exists (cnt_inc KUnlink (t_cnt s)). split; [exact Q1|]. right. reflexivity.
+      * exists (cnt_inc KUnlink (cnt_inc KUnlink (t_cnt s))). split; [exact Q2|].
+        destruct (terr f KUnlink (bump KUnlink s)) as [e2|]; [left; reflexivity|].
+        destruct k; [right|left]; reflexivity.
+      * exists (cnt_inc KUnlink (cnt_inc KUnlink (t_cnt s))). split; [exact Q2|].
+        destruct (terr f KUnlink (bump KUnlink s)) as [e2|]; left; reflexivity.
+  - cbn [rm_dir].
+    destruct (terr f KUnlink s) as [e1|].
+    + exists (cnt_inc KUnlink (cnt_inc KUnlink (t_cnt s))). split; [exact Q2|].
+      destruct (terr f KUnlink (bump KUnlink s)) as [e2|]; left; reflexivity.
+    + destruct (tmp_children (t_dir s)) as [kids|].
+      * destruct (alookup t kids) as [x|].
+        -- exists (cnt_inc KUnlink (t_cnt s)). split; [exact Q1|]. right. reflexivity.
+        -- exists (cnt_inc KUnlink (cnt_inc KUnlink (t_cnt s))). split; [exact Q2|].
+           destruct (terr f KUnlink (bump KUnlink s)) as [e2|]; left; reflexivity.
+      * exists (cnt_inc KUnlink (cnt_inc KUnlink (t_cnt s))). split; [exact Q2|].
+        destruct (terr f KUnlink (bump KUnlink s)) as [e2|]; left; reflexivity.
+  - exists (cnt_inc KUnlink (cnt_inc KUnlink (t_cnt s))). split; [exact Q2|].
+    destruct (terr f KUnlink s) as [e1|];
+      destruct (terr f KUnlink (bump KUnlink s)) as [e2|]; left; reflexivity.
+  - exists (cnt_inc KUnlink (cnt_inc KUnlink (t_cnt s))). split; [exact Q2|].
+    destruct (terr f KUnlink s) as [e1|];
+      destruct (terr f KUnlink (bump KUnlink s)) as [e2|]; left; reflexivity.
+Qed.
+
+Lemma p_remove_quiet f l s : quiet f (t_cnt s) -> quiet f (t_cnt (p_remove f l s)).
+Proof.
+  intros H. destruct (p_remove_cases f l s) as (c' & Q & [E|E]); rewrite E; cbn [t_cnt]; auto.
+Qed.
+
+Lemma p_remove_ev f l s :
+  t_ev (p_remove f l s) = t_ev s \/ t_ev (p_remove f l s) = EUnlink l :: t_ev s.
+Proof.
+  destruct (p_remove_cases f l s) as (c' & Q & [E|E]); rewrite E; cbn [t_ev]; auto.
+Qed.
+
+Lemma p_remove_ev_in f l s e : In e (t_ev s) -> In e (t_ev (p_remove f l s)).
+Proof. destruct (p_remove_ev f l s) as [E|E]; rewrite E; cbn [In]; auto. Qed.
+
+Lemma p_remove_ev_forall (P : event -> Prop) f l s :
+  P (EUnlink l) -> Forall P (t_ev s) -> Forall P (t_ev (p_remove f l s)).
+Proof. intros Hl H. destruct (p_remove_ev f l s) as [E|E]; rewrite E; auto. Qed.
+
+Lemma p_remove_dir f l s :
+  t_dir (p_remove f l s) = t_dir s \/ t_dir (p_remove f l s) = rm_dir l (t_dir s).
+Proof.
+  destruct (p_remove_cases f l s) as (c' & Q & [E|E]); rewrite E; cbn [t_dir]; auto.
+Qed.
+
+(* with no failing call, os.Remove of <base>/<fname> is the model's unlink *)
+Lemma p_remove_quiet_file f fname s :
+  quiet f (t_cnt s) -> t_dir (p_remove f (LFile fname) s) = unlink fname (t_dir s).
+Proof.
+  intros Q. unfold p_remove. rewrite tick_eq. cbv beta iota zeta. rewrite tick_eq. cbv beta iota.
+  rewrite (terr_quiet f KUnlink s Q).
+  rewrite (terr_quiet f KUnlink (bump KUnlink s)) by (cbn [t_cnt bump]; now apply quiet_inc).
+  cbn [t_dir bump]. unfold unlink.
+  destruct (dlookup fname (t_dir s)) as [[x|[|y k]]|]; reflexivity.
+Qed.
+
+Definition rm_tmp (t : bytes) (d : dirst) : dirst :=
+  match tmp_children d with
+  | Some kids => match alookup t kids with
+                 | Some _ => dset tmp_name (Dir (aremove t kids)) d
+                 | None => d end
+  | None => d
+  end.
+
+Lemma p_remove_quiet_tmp f t s :
+  quiet f (t_cnt s) -> t_dir (p_remove f (LTmpFile t) s) = rm_tmp t (t_dir s).
+Proof.
+  intros Q. unfold p_remove. rewrite tick_eq. cbv beta iota zeta. rewrite tick_eq. cbv beta iota.
+  rewrite (terr_quiet f KUnlink s Q).
+  rewrite (terr_quiet f KUnlink (bump KUnlink s)) by (cbn [t_cnt bump]; now apply quiet_inc).
+  cbn [t_dir bump]. unfold rm_tmp.
+  destruct (tmp_children (t_dir s)) as [kids|]; [|reflexivity].
+  destruct (alookup t kids); reflexivity.
+Qed.
+
+(* a temp file that is not there: nothing happens, fault or not *)
+Lemma p_remove_tmp_absent f t s :
+  (forall kids, tmp_children (t_dir s) = Some kids -> alookup t kids = None) ->
+  t_dir (p_remove f (LTmpFile t) s) = t_dir s.
+Proof.
+  intros H. unfold p_remove. rewrite tick_eq. cbv beta iota zeta. rewrite tick_eq. cbv beta iota.
+  cbn [t_dir bump].
+  destruct (tmp_children (t_dir s)) as [kids|].
+  - rewrite (H kids eq_refl).
+    destruct (terr f KUnlink s); destruct (terr f KUnlink (bump KUnlink s)); reflexivity.
+  - destruct (terr f KUnlink s); destruct (terr f KUnlink (bump KUnlink s)); reflexivity.
+Qed.
+
+(* ------------------------------------------------------------------ *)
+(* fileExists / Exists *)
+Lemma p_stat_eq f fname s :
+  p_stat f fname s =
+  (match terr f KStat s with Some _ => StErr | None => stat_file (t_dir s) fname end,
+   bump KStat s).
+Proof.
+  unfold p_stat, stat_file. rewrite tick_eq. cbn [t_dir bump].
+  destruct (name_max <? len fname); destruct (terr f KStat s); reflexivity.
+Qed.
+
+Lemma p_exists_spec f u s r s' :
+  p_exists f u s = (r, s') ->
+  t_dir s' = t_dir s /\ t_ev s' = t_ev s /\
+  (r = user_exists (t_dir s) u \/ r = ExErr) /\
+  (quiet f (t_cnt s) -> r = user_exists (t_dir s) u).
+Proof.
+  unfold p_exists, user_exists. rewrite p_stat_eq.
+  destruct (terr f KStat s) as [e|] eqn:E1.
+  - intros H. injection H as <- <-. cbn [t_dir t_ev bump]. repeat split; auto.
+    intros Q. rewrite terr_quiet in E1 by exact Q. discriminate.
+  - destruct (stat_file (t_dir s) (u ++ ext_admin)).
+    + intros H. injection H as <- <-. cbn [t_dir t_ev bump]. repeat split; auto.
+    + rewrite p_stat_eq. cbn [t_dir bump].
+      destruct (terr f KStat (bump KStat s)) as [e|] eqn:E2.
+      * intros H. injection H as <- <-. cbn [t_dir t_ev bump]. repeat split; auto.
+        intros Q. rewrite terr_quiet in E2 by (cbn [t_cnt bump]; now apply quiet_inc). discriminate.
+      * destruct (stat_file (t_dir s) (u ++ ext_user));
+          intros H; injection H as <- <-; cbn [t_dir t_ev bump]; repeat split; auto.
+    + intros H. injection H as <- <-. cbn [t_dir t_ev bump]. repeat split; auto.
+Qed.
+
+(* ------------------------------------------------------------------ *)
+(* os.MkdirAll(<base>/.tmp) *)
+Ltac terr_cases :=
+  repeat match goal with
+         | |- context [match terr ?f ?k ?s with _ => _ end] =>
+             let E := fresh "E" in destruct (terr f k s) eqn:E
+         end.
+
+Ltac quiet_from_terr :=
+  repeat match goal with
+         | H : terr _ _ _ = Some _ |- _ => apply terr_some in H; cbn [t_cnt bump emit setdir] in H
+         end;
+  cbn [t_cnt bump emit setdir];
+  repeat (assumption || apply quiet_inc).
+
+Lemma p_mkdir_tmp_spec f s b s2 :
+  p_mkdir_tmp f s = (b, s2) ->
+  ((t_dir s2 = t_dir s /\ t_ev s2 = t_ev s) \/
+   (dlookup tmp_name (t_dir s) = None /\ t_dir s2 = dset tmp_name (Dir []) (t_dir s) /\
+    t_ev s2 = EMkdir LTmpDir :: t_ev s /\ b = true)) /\
+  (b = true -> exists K, dlookup tmp_name (t_dir s2) = Some (Dir K)) /\
+  (b = false -> (exists c, dlookup tmp_name (t_dir s) = Some (File c)) \/ quiet f (t_cnt s2)).
+Proof.
+  unfold p_mkdir_tmp. repeat (rewrite tick_eq; cbv beta iota zeta).
+  cbn [t_dir bump].
+  terr_cases; cbn [t_dir bump];
+  destruct (dlookup tmp_name (t_dir s)) as [[x|k]|] eqn:El;
+  terr_cases;
+  intros H; injection H as <- <-; cbn [t_dir t_ev bump emit setdir];
+    (split; [first [left; split; reflexivity | right; repeat split; reflexivity]|]);
+    (split; [intros Hb; try discriminate; first [now eauto | rewrite dlookup_dset_eq; now eauto]|]);
+    (intros Hb; try discriminate; first [left; now eauto | right; quiet_from_terr]).
+Qed.
+
+(* ------------------------------------------------------------------ *)
+(* writeHashStr, cut into phases *)
+Definition wfail (f : option fault) (fname : bytes) (reserve : bool) (sx : tstate) : res * tstate :=
+  if reserve then (RErr, p_remove f (LFile fname) sx) else (RErr, sx).
+
+Definition wfail_tmp (f : option fault) (fname : bytes) (reserve : bool) (t : bytes) (sx : tstate)
+  : res * tstate :=
+  wfail f fname reserve (p_remove f (LTmpFile t) sx).
+
+Definition put_d (t data : bytes) (d : dirst) : dirst :=
+  let kids := match tmp_children d with Some k => k | None => [] end in
+  let cur := match alookup t kids with Some x => x | None => [] end in
+  dset tmp_name (Dir (aset t (cur ++ data) kids)) d.
+
+Definition wput (t data : bytes) (sx : tstate) : tstate :=
+  emit (EWrite (LTmpFile t) data) (setdir (put_d t data (t_dir sx)) sx).
+
+Definition ren_d (t fname : bytes) (d : dirst) : dirst :=
+  let kids := match tmp_children d with Some k => k | None => [] end in
+  let content := match alookup t kids with Some x => x | None => [] end in
+  dset fname (File content) (dset tmp_name (Dir (aremove t kids)) d).
+
+Definition wh_tail (f : option fault) (c : config) (h : hasher) (hs fname : bytes) (reserve : bool)
+           (o : oracle) (old : option bytes) (s3' : tstate) : res * tstate :=
+  let t := o_tmp o in
+  let line := print_record h (o_ts o) (default c) hs in
+  let ft := wfail_tmp f fname reserve t in
+  match terr f KWrite s3' with
+  | Some _ => ft (bump KWrite s3')
+  | None =>
+      let s4' := wput t line (bump KWrite s3') in
+      match terr f KRead s4', old with
+      | Some _, _ | _, None => ft (bump KRead s4')
+      | None, Some oldc =>
+          let s5 := bump KRead s4' in
+          match terr f KWrite s5 with
+          | Some _ => ft (bump KWrite s5)
+          | None =>
+              let s6 := bump KWrite s5 in
+              let rest := after_first_line oldc in
+              let s7 := bump KCopy s6 in
+              let copy_fails := match terr f KCopy s6 with
+                                | Some EIO => false
+                                | Some _ => true
+                                | None => false end in
+              if copy_fails then ft (wput t rest s7)
+              else
+                match terr f KRead s7 with
+                | Some _ => ft (wput t rest (bump KRead s7))
+                | None =>
+                    let s8 := bump KRead s7 in
+                    let s8' := match rest with [] => s8 | _ => wput t rest s8 end in
+                    match terr f KFsync s8' with
+                    | Some _ => ft (bump KFsync s8')
+                    | None =>
+                        let s9' := emit (EFsync (LTmpFile t)) (bump KFsync s8') in
+                        let s10 := bump KStat s9' in
+                        match terr f KRename s10 with
+                        | Some _ => ft (bump KRename s10)
+                        | None =>
+                            let s11 := bump KRename s10 in
+                            let s11' := emit (ERename (LTmpFile t) (LFile fname))
+                                             (setdir (ren_d t fname (t_dir s11)) s11) in
+                            match terr f KOpen s11' with
+                            | Some _ => ft (bump KOpen s11')
+                            | None =>
+                                let s12 := bump KOpen s11' in
+                                match terr f KFsync s12 with
+                                | Some _ => ft (bump KFsync s12)
+                                | None => (ROk, p_remove f (LTmpFile t)
+                                                         (emit (EFsync LBaseDir) (bump KFsync s12)))
+                                end
+                            end
+                        end
+                    end
+                end
+          end
+      end
+  end.
+
+Definition wh_open (f : option fault) (fname : bytes) (reserve : bool) (s : tstate)
+  : option (tstate * option bytes) :=
+  match terr f KOpen s with
+  | Some _ => None
+  | None =>
+      let s0 := bump KOpen s in
+      match dlookup fname (t_dir s) with
+      | Some (File old) => if reserve then None else Some (s0, Some old)
+      | Some (Dir _) => if reserve then None else Some (s0, None)
+      | None => if reserve
+                then Some (emit (ECreate (LFile fname)) (setdir (dset fname (File []) (t_dir s)) s0), Some [])
+                else None
+      end
+  end.
+
+Definition wh_create (t : bytes) (s3 : tstate) : tstate :=
+  let kids := match tmp_children (t_dir s3) with Some k => k | None => [] end in
+  emit (ECreate (LTmpFile t)) (setdir (dset tmp_name (Dir (aset t [] kids)) (t_dir s3)) s3).
+
+Lemma p_write_hash_eq f c h hs fname reserve o s :
+  p_write_hash f c h hs fname reserve o s =
+  match wh_open f fname reserve s with
+  | None => (RErr, bump KOpen s)
+  | Some (s1, old) =>
+      let (okdir, s2) := p_mkdir_tmp f s1 in
+      if negb okdir then wfail f fname reserve s2
+      else match terr f KOpen s2 with
+           | Some _ => wfail f fname reserve (bump KOpen s2)
+           | None => wh_tail f c h hs fname reserve o old (wh_create (o_tmp o) (bump KOpen s2))
+           end
+  end.
+Proof.
+  unfold p_write_hash, wh_open. rewrite tick_eq. cbv beta iota zeta. cbn [t_dir bump].
+  destruct (terr f KOpen s) as [e0|]; [reflexivity|].
+  assert (G : forall s1 old,
+    (let (okdir, s2) := p_mkdir_tmp f s1 in
+       if negb okdir
+       then if reserve then (RErr, p_remove f (LFile fname) s2) else (RErr, s2)
+       else
+        let (e3, s3) := tick f KOpen s2 in
+        match e3 with
+        | Some _ => if reserve then (RErr, p_remove f (LFile fname) s3) else (RErr, s3)
+        | None => wh_tail f c h hs fname reserve o old (wh_create (o_tmp o) s3)
+        end) =
+    (let (okdir, s2) := p_mkdir_tmp f s1 in
+     if negb okdir
+     then wfail f fname reserve s2
+     else
+      match terr f KOpen s2 with
+      | Some _ => wfail f fname reserve (bump KOpen s2)
+      | None => wh_tail f c h hs fname reserve o old (wh_create (o_tmp o) (bump KOpen s2))
+      end)).
+  { intros s1 old. destruct (p_mkdir_tmp f s1) as [okdir s2]. rewrite tick_eq. reflexivity. }
+  destruct (dlookup fname (t_dir s)) as [[x|k]|]; destruct reserve; try reflexivity.
+  all: rewrite <- G; clear G.
+  all: destruct (p_mkdir_tmp f _) as [okdir s2]; destruct okdir; cbn [negb]; try reflexivity.
+  all: unfold wh_tail, wfail_tmp, wfail, wput, put_d, ren_d, wh_create.
+  all: repeat (rewrite tick_eq; cbv beta iota zeta); cbn [t_dir bump emit setdir].
+  all: terr_cases; try reflexivity.
+Qed.
+
+(* ------------------------------------------------------------------ *)
+(* invariants of writeHashStr relative to the directory [d] it started from *)
+Definition Lfr (d : dirst) (fname : bytes) (rv : bool) (dx : dirst) : Prop :=
+  (forall f, f <> tmp_name -> f <> fname -> dlookup f dx = dlookup f d) /\
+  (if rv then dlookup fname d = None /\ exists c, dlookup fname dx = Some (File c)
+   else dlookup fname dx = dlookup fname d).
+
+Definition no_tmp_file (d : dirst) : Prop := forall c, dlookup tmp_name d <> Some (File c).
+
+Definition Linv (d : dirst) (fname : bytes) (rv : bool) (ok : bytes -> Prop) (dx : dirst) : Prop :=
+  Lfr d fname rv dx /\ no_tmp_file d /\
+  exists K, dlookup tmp_name dx = Some (Dir K) /\
+            forall t', ok t' -> alookup t' K = alookup t' (tmp_kids d).
+
+Definition Loose (d : dirst) (fname : bytes) (rv : bool) (dx : dirst) : Prop :=
+  Lfr d fname rv dx /\ no_tmp_file d /\
+  forall t', alookup t' (tmp_kids dx) = alookup t' (tmp_kids d).
+
+Lemma Lfr_dset_tmp d fname rv dx v :
+  fname <> tmp_name -> Lfr d fname rv dx -> Lfr d fname rv (dset tmp_name v dx).
+Proof.
+  intros Hn [F1 F2]. split.
+  - intros f Hf Hf2. rewrite dlookup_dset_ne by congruence. auto.
+  - destruct rv.
+    + destruct F2 as [F2 [c F3]]. split; [exact F2|]. exists c.
+      rewrite dlookup_dset_ne by congruence. exact F3.
+    + rewrite dlookup_dset_ne by congruence. exact F2.
+Qed.
+
+Lemma Linv_put d fname rv t data dx :
+  fname <> tmp_name ->
+  Linv d fname rv (fun t' => t' <> t) dx -> Linv d fname rv (fun t' => t' <> t) (put_d t data dx).
+Proof.
+  intros Hn (F & NF & K & HK & HK2). unfold put_d, tmp_children. rewrite HK.
+  split; [now apply Lfr_dset_tmp|]. split; [exact NF|].
+  eexists. split; [apply dlookup_dset_eq|].
+  intros t' Ht'. rewrite alookup_aset_ne by congruence. auto.
+Qed.
+
+Lemma Linv_ren d fname t dx :
+  fname <> tmp_name ->
+  Linv d fname true (fun t' => t' <> t) dx -> Linv d fname true (fun t' => t' <> t) (ren_d t fname dx).
+Proof.
+  intros Hn ([F1 [F2 F3]] & NF & K & HK & HK2). unfold ren_d, tmp_children. rewrite HK.
+  split; [split|].
+  - intros f Hf Hf2. rewrite !dlookup_dset_ne by congruence. auto.
+  - split; [exact F2|]. eexists. apply dlookup_dset_eq.
+  - split; [exact NF|]. eexists. split.
+    + rewrite dlookup_dset_ne by congruence. apply dlookup_dset_eq.
+    + intros t' Ht'. rewrite alookup_aremove_ne by congruence. auto.
+Qed.
+
+Lemma Linv_create d fname rv t dx :
+  fname <> tmp_name ->
+  Linv d fname rv (fun _ => True) dx ->
+  Linv d fname rv (fun t' => t' <> t)
+       (dset tmp_name (Dir (aset t [] (match tmp_children dx with Some k => k | None => [] end))) dx).
+Proof.
+  intros Hn (F & NF & K & HK & HK2). unfold tmp_children. rewrite HK.
+  split; [now apply Lfr_dset_tmp|]. split; [exact NF|].
+  eexists. split; [apply dlookup_dset_eq|].
+  intros t' Ht'. rewrite alookup_aset_ne by congruence. auto.
+Qed.
+
+Lemma Linv_rm_tmp d fname rv t dx :
+  fname <> tmp_name -> alookup t (tmp_kids d) = None ->
+  Linv d fname rv (fun t' => t' <> t) dx -> Loose d fname rv (rm_tmp t dx).
+Proof.
+  intros Hn Hfresh (F & NF & K & HK & HK2). unfold rm_tmp, tmp_children. rewrite HK.
+  assert (Heq : forall t', alookup t' (aremove t K) = alookup t' (tmp_kids d)).
+  { intros t'. destruct (list_eq_dec N.eq_dec t' t) as [->|Hne].
+    - now rewrite alookup_aremove_eq.
+    - rewrite alookup_aremove_ne by congruence. auto. }
+  destruct (alookup t K) as [x|] eqn:Ex.
+  - split; [now apply Lfr_dset_tmp|]. split; [exact NF|].
+    intros t'. rewrite tmp_kids_dset_tmp. apply Heq.
+  - split; [exact F|]. split; [exact NF|].
+    intros t'. unfold tmp_kids at 1. rewrite HK.
+    destruct (list_eq_dec N.eq_dec t' t) as [->|Hne]; [congruence|auto].
+Qed.
+
+Lemma Linv_loose d fname rv dx : Linv d fname rv (fun _ => True) dx -> Loose d fname rv dx.
+Proof.
+  intros (F & NF & K & HK & HK2). split; [exact F|]. split; [exact NF|].
+  intros t'. unfold tmp_kids at 1. rewrite HK. auto.
+Qed.
+
+Lemma Loose_same d fname dx : fname <> tmp_name -> Loose d fname false dx -> same_store d dx.
+Proof.
+  intros Hn ([F1 F2] & NF & HK). split; [|split].
+  - intros f Hf. destruct (list_eq_dec N.eq_dec f fname) as [->|Hne]; auto.
+  - exact HK.
+  - intros c Hc. destruct (NF c Hc).
+Qed.
+
+Lemma Loose_same_rm d fname dx :
+  fname <> tmp_name -> Loose d fname true dx -> same_store d (dremove fname dx).
+Proof.
+  intros Hn ([F1 [F2 F3]] & NF & HK). split; [|split].
+  - intros f Hf. destruct (list_eq_dec N.eq_dec f fname) as [->|Hne].
+    + now rewrite dlookup_dremove_eq.
+    + rewrite dlookup_dremove_ne by congruence. auto.
+  - intros t'. rewrite tmp_kids_dremove_ne by exact Hn. apply HK.
+  - intros c Hc. destruct (NF c Hc).
+Qed.
+
+(* the failure exit before the temp file exists (or after it is gone) *)
+Lemma wfail_same f d fname rv sx r s' :
+  fname <> tmp_name -> quiet f (t_cnt sx) -> Loose d fname rv (t_dir sx) ->
+  wfail f fname rv sx = (r, s') -> same_store d (t_dir s').
+Proof.
+  intros Hn Q L. unfold wfail. destruct rv; intros H; injection H as _ <-.
+  - rewrite p_remove_quiet_file by exact Q.
+    destruct L as ([F1 [F2 [c F3]]] & NF & HK) eqn:EL. unfold unlink. rewrite F3.
+    now apply Loose_same_rm.
+  - now apply Loose_same with (fname := fname).
+Qed.
+
+(* the failure exit with the deferred os.Remove(tmp) *)
+Lemma wfail_tmp_same f d fname rv t sx r s' :
+  fname <> tmp_name -> alookup t (tmp_kids d) = None ->
+  quiet f (t_cnt sx) -> Linv d fname rv (fun t' => t' <> t) (t_dir sx) ->
+  wfail_tmp f fname rv t sx = (r, s') -> same_store d (t_dir s').
+Proof.
+  intros Hn Hfresh Q L H. unfold wfail_tmp in H.
+  eapply wfail_same; [exact Hn| | |exact H].
+  - now apply p_remove_quiet.
+  - rewrite p_remove_quiet_tmp by exact Q. now apply Linv_rm_tmp.
+Qed.
+
+(* events only accumulate *)
+Lemma wfail_ev_in f fname rv sx r s' e :
+  wfail f fname rv sx = (r, s') -> In e (t_ev sx) -> In e (t_ev s').
+Proof.
+  unfold wfail. destruct rv; intros H; injection H as _ <-; auto using p_remove_ev_in.
+Qed.
+
+Lemma wfail_tmp_ev_in f fname rv t sx r s' e :
+  wfail_tmp f fname rv t sx = (r, s') -> In e (t_ev sx) -> In e (t_ev s').
+Proof.
+  unfold wfail_tmp. intros H Hin. eapply wfail_ev_in; [exact H|]. now apply p_remove_ev_in.
+Qed.
+
+Ltac linv_solve :=
+  cbn [t_dir bump emit setdir wput];
+  repeat first [ assumption | apply Linv_put; [assumption|] | apply Linv_ren; [assumption|] ].
+
+Lemma wh_tail_err ft c h hs fname rv o oldc s3 s' d :
+  fname <> tmp_name -> alookup (o_tmp o) (tmp_kids d) = None ->
+  Linv d fname rv (fun t' => t' <> o_tmp o) (t_dir s3) ->
+  wh_tail (Some ft) c h hs fname rv o (Some oldc) s3 = (RErr, s') ->
+  (rv = false -> ~ exists a b, In (ERename a b) (t_ev s')) ->
+  same_store d (t_dir s').
+Proof.
+  intros Hn Hfresh L H Hren. unfold wh_tail in H. cbv zeta in H.
+  destruct (after_first_line oldc) as [|b rest'].
+  all: repeat match type of H with
+         | context [match terr ?f ?k ?s with _ => _ end] =>
+             let E := fresh "E" in let e := fresh "e" in destruct (terr f k s) as [e|] eqn:E
+         end.
+  all: repeat match type of H with
+         | context [match ?e with EIO => _ | _ => _ end] => destruct e
+         end.
+  all: try discriminate.
+  all: (eapply wfail_tmp_same; [exact Hn|exact Hfresh| |  |exact H]; [quiet_from_terr|]).
+  all: first [ solve [linv_solve]
+             | destruct rv;
+               [ solve [linv_solve]
+               | exfalso; apply Hren; [reflexivity|]; do 2 eexists;
+                 eapply wfail_tmp_ev_in; [exact H|]; cbn [t_ev bump emit setdir wput In];
+                 left; reflexivity ] ].
+Qed.
+
+Lemma mkdir_Linv d fname rv d1 d2 K :
+  fname <> tmp_name -> Lfr d fname rv d1 -> dlookup tmp_name d1 = dlookup tmp_name d ->
+  (d2 = d1 \/ (dlookup tmp_name d1 = None /\ d2 = dset tmp_name (Dir []) d1)) ->
+  dlookup tmp_name d2 = Some (Dir K) ->
+  Linv d fname rv (fun _ => True) d2.
+Proof.
+  intros Hn F Ht [->|[Hnone ->]] HK.
+  - split; [exact F|]. split.
+    + intros c Hc. congruence.
+    + exists K. split; [exact HK|]. intros t' _. unfold tmp_kids. now rewrite <- Ht, HK.
+  - split; [now apply Lfr_dset_tmp|]. split.
+    + intros c Hc. congruence.
+    + exists K. split; [exact HK|]. intros t' _. unfold tmp_kids. rewrite <- Ht, Hnone.
+      rewrite dlookup_dset_eq in HK. injection HK as <-. reflexivity.
+Qed.
+
+Lemma Lfr_refl d fname : Lfr d fname false d.
+Proof. split; auto. Qed.
+
+Lemma Lfr_reserve d fname :
+  dlookup fname d = None -> Lfr d fname true (dset fname (File []) d).
+Proof.
+  intros H. split.
+  - intros f _ Hf. apply dlookup_dset_ne. congruence.
+  - split; [exact H|]. eexists. apply dlookup_dset_eq.
+Qed.
+
+(* C15 for writeHashStr under a single injected fault *)
+Lemma p_write_hash_err ft c h hs fname rv o s s' :
+  fname <> tmp_name -> alookup (o_tmp o) (tmp_kids (t_dir s)) = None ->
+  (rv = true -> no_tmp_file (t_dir s)) ->
+  (rv = false -> exists oldc, dlookup fname (t_dir s) = Some (File oldc)) ->
+  p_write_hash (Some ft) c h hs fname rv o s = (RErr, s') ->
+  (rv = false -> ~ exists a b, In (ERename a b) (t_ev s')) ->
+  same_store (t_dir s) (t_dir s').
+Proof.
+  intros Hn Hfresh Hnf Hold. rewrite p_write_hash_eq. unfold wh_open.
+  destruct (terr (Some ft) KOpen s) as [e0|] eqn:E0.
+  { intros H _. injection H as <-. apply same_store_refl. }
+  destruct rv.
+  - specialize (Hnf eq_refl). clear Hold.
+    destruct (dlookup fname (t_dir s)) as [[x|k]|] eqn:El;
+      try (intros H _; injection H as <-; apply same_store_refl).
+    destruct (p_mkdir_tmp _ _) as [b s2] eqn:Em.
+    apply p_mkdir_tmp_spec in Em as (Hd & Ht & Hf). cbn [t_dir t_ev emit setdir bump] in Hd, Hf.
+    assert (F : Lfr (t_dir s) fname true (dset fname (File []) (t_dir s))) by now apply Lfr_reserve.
+    assert (Htmp : dlookup tmp_name (dset fname (File []) (t_dir s)) = dlookup tmp_name (t_dir s))
+      by (apply dlookup_dset_ne; exact Hn).
+    destruct b; cbn [negb].
+    + destruct (Ht eq_refl) as [K HK].
+      assert (L : Linv (t_dir s) fname true (fun _ => True) (t_dir s2)).
+      { eapply mkdir_Linv; [exact Hn|exact F|exact Htmp| |exact HK].
+        destruct Hd as [[Hd _]|(Hd1 & Hd2 & _)]; [left|right]; auto. }
+      destruct (terr (Some ft) KOpen s2) as [e3|] eqn:E3.
+      * intros H _. eapply wfail_same; [exact Hn| | |exact H].
+        -- quiet_from_terr.
+        -- cbn [t_dir bump]. now apply Linv_loose.
+      * intros H Hr. eapply wh_tail_err; [exact Hn|exact Hfresh| |exact H|exact Hr].
+        unfold wh_create. cbn [t_dir bump emit setdir]. now apply Linv_create.
+    + destruct (Hf eq_refl) as [[c0 Hc]|Q].
+      * rewrite Htmp in Hc. destruct (Hnf c0 Hc).
+      * intros H _. eapply wfail_same; [exact Hn|exact Q| |exact H].
+        destruct Hd as [[Hd _]|(_ & _ & _ & Hd)]; [|discriminate].
+        rewrite Hd. split; [exact F|]. split; [exact Hnf|].
+        intros t'. now rewrite tmp_kids_dset_ne.
+  - clear Hnf. destruct (Hold eq_refl) as [oldc Hl]. rewrite Hl.
+    destruct (p_mkdir_tmp _ _) as [b s2] eqn:Em.
+    apply p_mkdir_tmp_spec in Em as (Hd & Ht & Hf). cbn [t_dir t_ev emit setdir bump] in Hd, Hf.
+    destruct b; cbn [negb].
+    + destruct (Ht eq_refl) as [K HK].
+      assert (L : Linv (t_dir s) fname false (fun _ => True) (t_dir s2)).
+      { eapply mkdir_Linv; [exact Hn|apply Lfr_refl|reflexivity| |exact HK].
+        destruct Hd as [[Hd _]|(Hd1 & Hd2 & _)]; [left|right]; auto. }
+      destruct (terr (Some ft) KOpen s2) as [e3|] eqn:E3.
+      * intros H _. eapply wfail_same; [exact Hn| | |exact H].
+        -- quiet_from_terr.
+        -- cbn [t_dir bump]. now apply Linv_loose.
+      * intros H Hr. eapply wh_tail_err; [exact Hn|exact Hfresh| |exact H|exact Hr].
+        unfold wh_create. cbn [t_dir bump emit setdir]. now apply Linv_create.
+    + intros H _. unfold wfail in H. injection H as <-.
+      destruct Hd as [[Hd _]|(_ & _ & _ & Hd)]; [|discriminate].
+      rewrite Hd. apply same_store_refl.
+Qed.
+
+(* ------------------------------------------------------------------ *)
+(* the successful run of writeHashStr *)
+Definition tail_dir (t fname line rest : bytes) (d3 : dirst) : dirst :=
+  let d4 := put_d t line d3 in
+  let d8 := match rest with [] => d4 | _ => put_d t rest d4 end in
+  ren_d t fname d8.
+
+Lemma ren_d_absent t fname d kids :
+  fname <> tmp_name -> tmp_children (ren_d t fname d) = Some kids -> alookup t kids = None.
+Proof.
+  intros Hn. unfold ren_d. rewrite tmp_children_dset_ne by exact Hn.
+  rewrite tmp_children_dset_tmp. intros H. injection H as <-. apply alookup_aremove_eq.
+Qed.
+
+Lemma wfail_tmp_not_ok f fname rv t sx s' : wfail_tmp f fname rv t sx <> (ROk, s').
+Proof. unfold wfail_tmp, wfail. destruct rv; discriminate. Qed.
+
+Lemma wfail_not_ok f fname rv sx s' : wfail f fname rv sx <> (ROk, s').
+Proof. unfold wfail. destruct rv; discriminate. Qed.
+
+Lemma wh_tail_ok f c h hs fname rv o old s3 s' :
+  fname <> tmp_name ->
+  wh_tail f c h hs fname rv o old s3 = (ROk, s') ->
+  exists oldc, old = Some oldc /\
+    t_dir s' = tail_dir (o_tmp o) fname (print_record h (o_ts o) (default c) hs)
+                        (after_first_line oldc) (t_dir s3).
+Proof.
+  intros Hn H. unfold wh_tail in H. cbv zeta in H.
+  destruct old as [oldc|].
+  2:{ repeat match type of H with
+         | context [match terr ?f ?k ?s with _ => _ end] =>
+             let E := fresh "E" in let e := fresh "e" in destruct (terr f k s) as [e|] eqn:E
+         end; destruct (wfail_tmp_not_ok _ _ _ _ _ _ H). }
+  exists oldc. split; [reflexivity|]. unfold tail_dir.
+  destruct (after_first_line oldc) as [|b rest'].
+  all: repeat match type of H with
+         | context [match terr ?f ?k ?s with _ => _ end] =>
+             let E := fresh "E" in let e := fresh "e" in destruct (terr f k s) as [e|] eqn:E
+         end.
+  all: repeat match type of H with
+         | context [match ?e with EIO => _ | _ => _ end] => destruct e
+         end.
+  all: try (destruct (wfail_tmp_not_ok _ _ _ _ _ _ H)).
+  all: injection H as <-.
+  all: rewrite p_remove_tmp_absent; [reflexivity|].
+  all: cbn [t_dir bump emit setdir wput]; intros kids; now apply ren_d_absent.
+Qed.
+
+Lemma wh_tail_none_ok c h hs fname rv o oldc s3 :
+  fst (wh_tail None c h hs fname rv o (Some oldc) s3) = ROk.
+Proof. unfold wh_tail. cbn [terr]. destruct (after_first_line oldc); reflexivity. Qed.
+
+Lemma wh_tail_none_dir c h hs fname rv o s3 :
+  wh_tail None c h hs fname rv o None s3 =
+  wfail_tmp None fname rv (o_tmp o)
+            (bump KRead (wput (o_tmp o) (print_record h (o_ts o) (default c) hs) (bump KWrite s3))).
+Proof. reflexivity. Qed.
+
+Lemma p_mkdir_tmp_none s :
+  p_mkdir_tmp None s =
+  match dlookup tmp_name (t_dir s) with
+  | Some (Dir _) => (true, bump KStat s)
+  | Some (File _) => (false, bump KStat s)
+  | None => (true, emit (EMkdir LTmpDir)
+                        (setdir (dset tmp_name (Dir []) (t_dir s))
+                                (bump KMkdir (bump KStat (bump KStat s)))))
+  end.
+Proof.
+  unfold p_mkdir_tmp. repeat (rewrite tick_eq; cbv beta iota zeta). cbn [terr t_dir bump].
+  destruct (dlookup tmp_name (t_dir s)) as [[x|k]|]; reflexivity.
+Qed.
+
+Lemma p_mkdir_tmp_sim f s1 s2 sn1 :
+  p_mkdir_tmp f s1 = (true, s2) -> t_dir sn1 = t_dir s1 ->
+  exists sn2, p_mkdir_tmp None sn1 = (true, sn2) /\ t_dir sn2 = t_dir s2.
+Proof.
+  intros H Hsn. apply p_mkdir_tmp_spec in H as (Hd & Ht & _).
+  destruct (Ht eq_refl) as [K HK]. rewrite p_mkdir_tmp_none, Hsn.
+  destruct Hd as [[Hd _]|(Hd1 & Hd2 & _)].
+  - rewrite Hd in HK. rewrite HK. eexists. split; [reflexivity|]. cbn [t_dir bump]. congruence.
+  - rewrite Hd1. eexists. split; [reflexivity|]. cbn [t_dir bump emit setdir]. congruence.
+Qed.
+
+Lemma wh_create_dir t s s0 : t_dir s0 = t_dir s -> t_dir (wh_create t s0) = t_dir (wh_create t s).
+Proof. intros H. unfold wh_create. cbn [t_dir emit setdir]. now rewrite H. Qed.
+
+(* a fault that lets writeHashStr succeed: same directory as the run without fault *)
+Lemma p_write_hash_ok_sim f c h hs fname rv o s s' sn :
+  fname <> tmp_name -> t_dir sn = t_dir s ->
+  p_write_hash f c h hs fname rv o s = (ROk, s') ->
+  exists s0, p_write_hash None c h hs fname rv o sn = (ROk, s0) /\ t_dir s0 = t_dir s'.
+Proof.
+  intros Hn Hsn. rewrite !p_write_hash_eq. unfold wh_open. cbn [terr]. rewrite Hsn.
+  destruct (terr f KOpen s) as [e0|]; [discriminate|].
+  assert (G : forall s1 sn1 old, t_dir sn1 = t_dir s1 ->
+    (let (okdir, s2) := p_mkdir_tmp f s1 in
+      if negb okdir then wfail f fname rv s2
+      else match terr f KOpen s2 with
+           | Some _ => wfail f fname rv (bump KOpen s2)
+           | None => wh_tail f c h hs fname rv o old (wh_create (o_tmp o) (bump KOpen s2))
+           end) = (ROk, s') ->
+    exists s0,
+      (let (okdir, s2) := p_mkdir_tmp None sn1 in
+       if negb okdir then wfail None fname rv s2
+       else wh_tail None c h hs fname rv o old (wh_create (o_tmp o) (bump KOpen s2))) = (ROk, s0)
+      /\ t_dir s0 = t_dir s').
+  { intros s1 sn1 old H1. destruct (p_mkdir_tmp f s1) as [b s2] eqn:Em.
+    destruct b; cbn [negb]; [|intros H; destruct (wfail_not_ok _ _ _ _ _ H)].
+    destruct (p_mkdir_tmp_sim _ _ _ _ Em H1) as (sn2 & Emn & Hd2). rewrite Emn. cbn [negb].
+    destruct (terr f KOpen s2) as [e3|]; [intros H; destruct (wfail_not_ok _ _ _ _ _ H)|].
+    intros H. apply wh_tail_ok in H as (oldc & -> & Hd'); [|exact Hn].
+    destruct (wh_tail None c h hs fname rv o (Some oldc) (wh_create (o_tmp o) (bump KOpen sn2)))
+      as [r0 s0] eqn:Et.
+    pose proof (wh_tail_none_ok c h hs fname rv o oldc (wh_create (o_tmp o) (bump KOpen sn2))) as Hr.
+    rewrite Et in Hr. cbn [fst] in Hr. subst r0.
+    exists s0. split; [reflexivity|].
+    apply wh_tail_ok in Et as (oldc' & Ho & Hd0); [|exact Hn]. injection Ho as <-.
+    rewrite Hd0, Hd'. f_equal. apply wh_create_dir. cbn [t_dir bump]. exact Hd2. }
+  destruct (dlookup fname (t_dir s)) as [[x|k]|]; destruct rv; try discriminate;
+    apply G; cbn [t_dir bump emit setdir]; congruence.
+Qed.
+
+(* same_store facts for the run without fault *)
+Lemma ss_dremove_dset fname v d :
+  fname <> tmp_name -> dlookup fname d = None -> same_store d (dremove fname (dset fname v d)).
+Proof.
+  intros Hn Hl. split; [|split].
+  - intros f Hf. destruct (list_eq_dec N.eq_dec f fname) as [->|Hne].
+    + now rewrite dlookup_dremove_eq.
+    + rewrite dlookup_dremove_ne, dlookup_dset_ne by congruence. reflexivity.
+  - intros t. now rewrite tmp_kids_dremove_ne, tmp_kids_dset_ne.
+  - intros c Hc. rewrite dlookup_dremove_ne, dlookup_dset_ne by congruence. exact Hc.
+Qed.
+
+Lemma tail_dir_same t fname line rest d2 K :
+  fname <> tmp_name -> dlookup tmp_name d2 = Some (Dir K) -> alookup t K = None ->
+  same_store (dset fname (File (line ++ rest)) d2)
+             (tail_dir t fname line rest (dset tmp_name (Dir (aset t [] K)) d2)).
+Proof.
+  intros Hn HK Hfresh.
+  assert (E : forall t' (v : bytes) m, t' <> t -> alookup t' (aset t v m) = alookup t' m).
+  { intros t' v m Hne. apply alookup_aset_ne. congruence. }
+  destruct rest as [|b rest]; [rewrite app_nil_r|];
+  cbv beta zeta delta [tail_dir put_d ren_d]; cbv beta iota;
+  repeat (progress (rewrite ?tmp_children_dset_tmp, ?alookup_aset_eq; cbv beta iota)); cbn [app].
+  all: split; [|split].
+  all: try (intros f Hf; destruct (list_eq_dec N.eq_dec f fname) as [->|Hne];
+            [ now rewrite !dlookup_dset_eq | now rewrite !dlookup_dset_ne by congruence ]).
+  all: try (intros c Hc; rewrite dlookup_dset_ne in Hc by exact Hn; congruence).
+  all: intros t'; rewrite !(tmp_kids_dset_ne fname) by exact Hn; rewrite tmp_kids_dset_tmp;
+       unfold tmp_kids; rewrite HK;
+       destruct (list_eq_dec N.eq_dec t' t) as [->|Hne];
+       [ now rewrite alookup_aremove_eq
+       | rewrite alookup_aremove_ne by congruence; now rewrite !E ].
+Qed.
+
+(* ------------------------------------------------------------------ *)
+(* footprint of writeHashStr: only <fname>, the work area, the base directory *)
+Definition loc_local (fname : bytes) (l : loc) : Prop :=
+  match l with LFile f => f = fname | _ => True end.
+
+Definition ev_local (fname : bytes) (e : event) : Prop :=
+  match e with
+  | ECreate l | EMkdir l | EWrite l _ | EFsync l | EUnlink l => loc_local fname l
+  | ERename a b => loc_local fname a /\ loc_local fname b
+  end.
+
+Ltac ev_solve HP :=
+  repeat first
+    [ assumption
+    | apply p_remove_ev_forall; [apply HP; cbn; auto|]
+    | apply Forall_cons; [apply HP; cbn; auto|]
+    | progress cbn [t_ev bump emit setdir wput wh_create snd] ].
+
+Lemma p_mkdir_tmp_ev (P : event -> Prop) f s :
+  P (EMkdir LTmpDir) -> Forall P (t_ev s) -> Forall P (t_ev (snd (p_mkdir_tmp f s))).
+Proof.
+  intros HP H. destruct (p_mkdir_tmp f s) as [b s2] eqn:Em. cbn [snd].
+  apply p_mkdir_tmp_spec in Em as ([[_ Hev]|(_ & _ & Hev & _)] & _); rewrite Hev; auto.
+Qed.
+
+Lemma wfail_ev (P : event -> Prop) f fname rv sx :
+  (forall e, ev_local fname e -> P e) -> Forall P (t_ev sx) ->
+  Forall P (t_ev (snd (wfail f fname rv sx))).
+Proof. intros HP H. unfold wfail. destruct rv; ev_solve HP. Qed.
+
+Lemma wfail_tmp_ev (P : event -> Prop) f fname rv t sx :
+  (forall e, ev_local fname e -> P e) -> Forall P (t_ev sx) ->
+  Forall P (t_ev (snd (wfail_tmp f fname rv t sx))).
+Proof. intros HP H. unfold wfail_tmp. apply wfail_ev; [exact HP|]. ev_solve HP. Qed.
+
+Lemma wh_tail_ev (P : event -> Prop) f c h hs fname rv o old s3 :
+  (forall e, ev_local fname e -> P e) -> Forall P (t_ev s3) ->
+  Forall P (t_ev (snd (wh_tail f c h hs fname rv o old s3))).
+Proof.
+  intros HP H. unfold wh_tail. cbv zeta.
+  destruct old as [oldc|]; [destruct (after_first_line oldc) as [|b rest']|].
+  all: repeat match goal with
+         | |- context [match terr ?f ?k ?s with _ => _ end] =>
+             let E := fresh "E" in let e := fresh "e" in destruct (terr f k s) as [e|] eqn:E
+         end.
+  all: repeat match goal with
+         | |- context [match ?e with EIO => _ | _ => _ end] => destruct e
+         end.
+  all: cbv iota.
+  all: try (apply wfail_tmp_ev; [exact HP|]).
+  all: ev_solve HP.
+Qed.
+
+Lemma p_write_hash_ev (P : event -> Prop) f c h hs fname rv o s :
+  (forall e, ev_local fname e -> P e) -> Forall P (t_ev s) ->
+  Forall P (t_ev (snd (p_write_hash f c h hs fname rv o s))).
+Proof.
+  intros HP H. rewrite p_write_hash_eq. unfold wh_open.
+  destruct (terr f KOpen s) as [e0|]; [ev_solve HP|].
+  assert (G : forall s1 old, Forall P (t_ev s1) ->
+    Forall P (t_ev (snd
+      (let (okdir, s2) := p_mkdir_tmp f s1 in
+       if negb okdir then wfail f fname rv s2
+       else match terr f KOpen s2 with
+            | Some _ => wfail f fname rv (bump KOpen s2)
+            | None => wh_tail f c h hs fname rv o old (wh_create (o_tmp o) (bump KOpen s2))
+            end)))).
+  { intros s1 old H1.
+    pose proof (p_mkdir_tmp_ev P f s1 (HP (EMkdir LTmpDir) I) H1) as H2.
+    destruct (p_mkdir_tmp f s1) as [b s2]. cbn [snd] in H2.
+    destruct b; cbn [negb]; [|now apply wfail_ev].
+    destruct (terr f KOpen s2) as [e3|]; [apply wfail_ev; [exact HP|]; ev_solve HP|].
+    apply wh_tail_ev; [exact HP|]. ev_solve HP. }
+  destruct (dlookup fname (t_dir s)) as [[x|k]|]; destruct rv; try (ev_solve HP; fail);
+    apply G; ev_solve HP.
+Qed.
+
 Section Programs.
   Variable kdf : hasher -> bytes -> bytes -> option bytes.
+
+  (* writeHashStr without fault against the model's write_hash *)
+  Lemma p_write_hash_nofault c h hs u pw admin rv o s :
+    cfg_hasher c (default c) = Some h ->
+    hash_generate kdf h (o_salt o) pw = Some hs ->
+    u ++ ext_of admin <> tmp_name ->
+    alookup (o_tmp o) (tmp_kids (t_dir s)) = None ->
+    let '(r, s') := p_write_hash None c h hs (u ++ ext_of admin) rv o s in
+    let '(d', r') := write_hash kdf c (t_dir s) u pw admin rv o in
+    r = r' /\ same_store d' (t_dir s').
+  Proof.
+    intros Hh Hg Hn Hfresh. unfold write_hash. rewrite Hh, Hg.
+    rewrite p_write_hash_eq. unfold wh_open. cbn [terr].
+    set (fname := u ++ ext_of admin) in *. set (d := t_dir s) in *.
+    set (line := print_record h (o_ts o) (default c) hs).
+    assert (TOK : forall d2 K sx oldc,
+      t_dir sx = d2 -> dlookup tmp_name d2 = Some (Dir K) -> alookup (o_tmp o) K = None ->
+      let '(r, s') := wh_tail None c h hs fname rv o (Some oldc) (wh_create (o_tmp o) (bump KOpen sx)) in
+      r = ROk /\ same_store (dset fname (File (line ++ after_first_line oldc)) d2) (t_dir s')).
+    { intros d2 K sx oldc Hsx HK HKf.
+      destruct (wh_tail None c h hs fname rv o (Some oldc) (wh_create (o_tmp o) (bump KOpen sx)))
+        as [r s'] eqn:Et.
+      pose proof (wh_tail_none_ok c h hs fname rv o oldc (wh_create (o_tmp o) (bump KOpen sx))) as Hr.
+      rewrite Et in Hr. cbn [fst] in Hr. subst r. split; [reflexivity|].
+      apply wh_tail_ok in Et as (oldc' & Ho & Hd'); [|exact Hn]. injection Ho as <-.
+      rewrite Hd'. unfold wh_create. cbn [t_dir bump emit setdir]. rewrite Hsx.
+      unfold tmp_children. rewrite HK. now apply tail_dir_same. }
+    assert (TERR : forall d2 K sx,
+      t_dir sx = d2 -> dlookup tmp_name d2 = Some (Dir K) -> alookup (o_tmp o) K = None ->
+      let '(r, s') := wh_tail None c h hs fname false o None (wh_create (o_tmp o) (bump KOpen sx)) in
+      r = RErr /\ same_store d2 (t_dir s')).
+    { intros d2 K sx Hsx HK HKf. rewrite wh_tail_none_dir.
+      destruct (wfail_tmp None fname false (o_tmp o) _) as [r s'] eqn:Et.
+      split; [unfold wfail_tmp, wfail in Et; now injection Et as <- _|].
+      eapply (wfail_tmp_same None); [exact Hn| |exact I| |exact Et].
+      - unfold tmp_kids. rewrite HK. exact HKf.
+      - cbn [t_dir bump wput emit setdir]. apply Linv_put; [exact Hn|].
+        unfold wh_create. cbn [t_dir bump emit setdir]. rewrite Hsx.
+        apply Linv_create; [exact Hn|].
+        split; [apply Lfr_refl|]. split; [intros x Hx; congruence|].
+        exists K. split; [exact HK|]. intros t' _. unfold tmp_kids. now rewrite HK. }
+    assert (Hkids : forall K, dlookup tmp_name d = Some (Dir K) -> alookup (o_tmp o) K = None).
+    { intros K HK. unfold tmp_kids in Hfresh. now rewrite HK in Hfresh. }
+    destruct (dlookup fname d) as [[old|k]|] eqn:El; destruct rv;
+      try (split; [reflexivity|apply same_store_refl]).
+    - (* update of an existing regular file *)
+      rewrite p_mkdir_tmp_none. cbn [t_dir bump]. fold d.
+      destruct (dlookup tmp_name d) as [[x|K]|] eqn:Et; cbn [negb terr].
+      + unfold wfail. split; [reflexivity|apply same_store_refl].
+      + apply (TOK d K); [reflexivity|exact Et|now apply Hkids].
+      + apply (TOK (dset tmp_name (Dir []) d) []); [reflexivity|apply dlookup_dset_eq|reflexivity].
+    - (* a directory under the file's name *)
+      rewrite p_mkdir_tmp_none. cbn [t_dir bump]. fold d.
+      destruct (dlookup tmp_name d) as [[x|K]|] eqn:Et; cbn [negb terr].
+      + unfold wfail. split; [reflexivity|apply same_store_refl].
+      + apply (TERR d K); [reflexivity|exact Et|now apply Hkids].
+      + apply (TERR (dset tmp_name (Dir []) d) []); [reflexivity|apply dlookup_dset_eq|reflexivity].
+    - (* creation *)
+      rewrite p_mkdir_tmp_none. cbn [t_dir bump emit setdir]. fold d.
+      assert (Htmp : dlookup tmp_name (dset fname (File []) d) = dlookup tmp_name d)
+        by (apply dlookup_dset_ne; exact Hn).
+      destruct (dlookup tmp_name (dset fname (File []) d)) as [[x|K]|] eqn:Et; cbn [negb terr].
+      + unfold wfail. split; [reflexivity|].
+        rewrite p_remove_quiet_file by exact I. cbn [t_dir bump emit setdir].
+        unfold unlink. rewrite dlookup_dset_eq. now apply ss_dremove_dset.
+      + apply (TOK (dset fname (File []) d) K); [reflexivity|exact Et|].
+        apply Hkids. congruence.
+      + apply (TOK (dset tmp_name (Dir []) (dset fname (File []) d)) []);
+          [reflexivity|apply dlookup_dset_eq|reflexivity].
+  Qed.
 
   (* ---------------- no fault: the programs compute the big-step result ---------------- *)
   Theorem nofault_add c d u pw adm o :
@@ -31,24 +1044,80 @@ Section Programs.
     let '(r, s) := p_add kdf None c d u pw adm o in
     let '(d', r') := add_user kdf c d u pw adm o in
     r = r' /\ same_store d' (t_dir s).
-  Admitted.
+  Proof.
+    intros Hfresh. unfold p_add, add_user.
+    destruct (valid_name u) eqn:Hv; cbn [negb]; [|split; [reflexivity|apply same_store_refl]].
+    destruct (p_exists None u (t0 d)) as [ex s1] eqn:Ex.
+    apply p_exists_spec in Ex as (Hd & _ & _ & Hq). specialize (Hq I). cbn [t_dir t0] in Hd, Hq.
+    subst ex.
+    destruct (user_exists d u) eqn:Hex;
+      try (rewrite Hd; split; [reflexivity|apply same_store_refl]).
+    destruct (cfg_hasher c (default c)) as [h|] eqn:Hh.
+    2:{ unfold write_hash. rewrite Hh, Hd. split; [reflexivity|apply same_store_refl]. }
+    destruct (hash_generate kdf h (o_salt o) pw) as [hs|] eqn:Hg.
+    2:{ unfold write_hash. rewrite Hh, Hg, Hd. split; [reflexivity|apply same_store_refl]. }
+    pose proof (p_write_hash_nofault c h hs u pw adm true o s1 Hh Hg) as H.
+    rewrite Hd in H. apply H; [now apply valid_not_tmp|exact Hfresh].
+  Qed.
 
   Theorem nofault_update c d u pw o :
     tmp_name_fresh d o ->
     let '(r, s) := p_update kdf None c d u pw o in
     let '(d', r') := update_user kdf c d u pw o in
     r = r' /\ same_store d' (t_dir s).
-  Admitted.
+  Proof.
+    intros Hfresh. unfold p_update, update_user.
+    destruct (valid_name u) eqn:Hv; cbn [negb]; [|split; [reflexivity|apply same_store_refl]].
+    destruct (p_exists None u (t0 d)) as [ex s1] eqn:Ex.
+    apply p_exists_spec in Ex as (Hd & _ & _ & Hq). specialize (Hq I). cbn [t_dir t0] in Hd, Hq.
+    subst ex.
+    destruct (user_exists d u) as [admin| |] eqn:Hex;
+      try (rewrite Hd; split; [reflexivity|apply same_store_refl]).
+    rewrite tick_eq. cbv beta iota. cbn [terr]. rewrite tick_eq. cbv beta iota. cbn [terr t_dir bump].
+    rewrite Hd.
+    destruct (read_file d (u ++ ext_of admin)) as [content|] eqn:Er;
+      [|split; [reflexivity|cbn [t_dir bump]; rewrite Hd; apply same_store_refl]].
+    destruct (is_supported c content);
+      [|split; [reflexivity|cbn [t_dir bump]; rewrite Hd; apply same_store_refl]].
+    destruct (cfg_hasher c (default c)) as [h|] eqn:Hh.
+    2:{ unfold write_hash. rewrite Hh. split; [reflexivity|cbn [t_dir bump]; rewrite Hd; apply same_store_refl]. }
+    destruct (hash_generate kdf h (o_salt o) pw) as [hs|] eqn:Hg.
+    2:{ unfold write_hash. rewrite Hh, Hg. split; [reflexivity|cbn [t_dir bump]; rewrite Hd; apply same_store_refl]. }
+    pose proof (p_write_hash_nofault c h hs u pw admin false o (bump KRead (bump KOpen s1)) Hh Hg) as H.
+    cbn [t_dir bump] in H. rewrite Hd in H. apply H; [now apply valid_not_tmp|exact Hfresh].
+  Qed.
 
   Theorem nofault_set_admin d u adm :
     let '(r, s) := p_set_admin None d u adm in
     let '(d', r') := set_admin d u adm in
     r = r' /\ t_dir s = d'.
-  Admitted.
+  Proof.
+    unfold p_set_admin, set_admin.
+    destruct (valid_name u) eqn:Hv; cbn [negb]; [|split; reflexivity].
+    destruct (p_exists None u (t0 d)) as [ex s1] eqn:Ex.
+    apply p_exists_spec in Ex as (Hd & _ & _ & Hq). specialize (Hq I). cbn [t_dir t0] in Hd, Hq.
+    subst ex.
+    destruct (user_exists d u) as [cur| |] eqn:Hex; try (split; [reflexivity|exact Hd]).
+    destruct (Bool.eqb cur adm); [split; [reflexivity|exact Hd]|].
+    repeat (rewrite tick_eq; cbv beta iota). cbn [terr t_dir bump]. rewrite Hd.
+    destruct (dlookup (u ++ ext_of cur) d) as [n|];
+      [|split; [reflexivity|cbn [t_dir bump]; exact Hd]].
+    destruct (name_max <? len (u ++ ext_of adm)); cbn [negb andb];
+      [split; [reflexivity|cbn [t_dir bump]; exact Hd]|].
+    match goal with |- context [if ?b then _ else _] => destruct b end.
+    - repeat (rewrite tick_eq; cbv beta iota). cbn [terr t_dir bump emit setdir].
+      split; reflexivity.
+    - split; [reflexivity|cbn [t_dir bump]; exact Hd].
+  Qed.
 
   Theorem nofault_remove d u :
     t_dir (p_remove_user None d u) = remove_user d u.
-  Admitted.
+  Proof.
+    unfold p_remove_user, remove_user.
+    destruct (valid_name u); cbn [negb]; [|reflexivity].
+    repeat (rewrite tick_eq; cbv beta iota). cbn [terr t_dir bump emit].
+    rewrite !p_remove_quiet_file by exact I. reflexivity.
+  Qed.
 
   (* ---------------- C15: every single injected fault ---------------- *)
   (* add: whatever call fails with whatever errno, a reported failure leaves
@@ -61,7 +1130,25 @@ Section Programs.
     tmp_name_fresh d o -> (forall x, dlookup tmp_name d <> Some (File x)) ->
     p_add kdf (Some ft) c d u pw adm o = (RErr, s) ->
     same_store d (t_dir s).
-  Admitted.
+  Proof.
+    intros Hfresh Hnf. unfold p_add.
+    destruct (valid_name u) eqn:Hv; cbn [negb];
+      [|intros H; injection H as <-; apply same_store_refl].
+    destruct (p_exists (Some ft) u (t0 d)) as [ex s1] eqn:Ex.
+    apply p_exists_spec in Ex as (Hd & _ & _ & _). cbn [t_dir t0] in Hd.
+    assert (Hs1 : forall s, (RErr, s1) = (RErr, s) -> same_store d (t_dir s)).
+    { intros s0 H. injection H as <-. rewrite Hd. apply same_store_refl. }
+    destruct ex; try exact (Hs1 s).
+    destruct (cfg_hasher c (default c)) as [h|]; [|exact (Hs1 s)].
+    destruct (hash_generate kdf h (o_salt o) pw) as [hs|]; [|exact (Hs1 s)].
+    intros H. rewrite <- Hd.
+    eapply p_write_hash_err; [| | | |exact H|].
+    - now apply valid_not_tmp.
+    - rewrite Hd. exact Hfresh.
+    - intros _. rewrite Hd. exact Hnf.
+    - discriminate.
+    - discriminate.
+  Qed.
 
   (* update: a reported failure leaves the store as it was unless the rename
      had already been performed (fault in the open / fsync of the base
@@ -71,7 +1158,37 @@ Section Programs.
     p_update kdf (Some ft) c d u pw o = (RErr, s) ->
     ~ has_rename (events s) ->
     same_store d (t_dir s).
-  Admitted.
+  Proof.
+    intros Hfresh. unfold p_update.
+    destruct (valid_name u) eqn:Hv; cbn [negb];
+      [|intros H _; injection H as <-; apply same_store_refl].
+    destruct (p_exists (Some ft) u (t0 d)) as [ex s1] eqn:Ex.
+    apply p_exists_spec in Ex as (Hd & _ & _ & _). cbn [t_dir t0] in Hd.
+    assert (Hs1 : forall sx s, t_dir sx = d -> (RErr, sx) = (RErr, s) -> same_store d (t_dir s)).
+    { intros sx s0 Hx H. injection H as <-. rewrite Hx. apply same_store_refl. }
+    destruct ex as [admin| |]; try (intros H _; exact (Hs1 s1 s Hd H)).
+    rewrite tick_eq. cbv beta iota.
+    destruct (terr (Some ft) KOpen s1) as [e2|]; [intros H _; exact (Hs1 (bump KOpen s1) s Hd H)|].
+    rewrite tick_eq. cbv beta iota. cbn [t_dir bump].
+    assert (Hs3 : forall s, (RErr, bump KRead (bump KOpen s1)) = (RErr, s) -> same_store d (t_dir s)).
+    { intros s0. apply Hs1. exact Hd. }
+    destruct (terr (Some ft) KRead (bump KOpen s1)) as [e3|]; [intros H _; exact (Hs3 s H)|].
+    unfold read_file. rewrite Hd.
+    destruct (dlookup (u ++ ext_of admin) d) as [[content|k]|] eqn:El;
+      try (intros H _; exact (Hs3 s H)).
+    destruct (is_supported c content); [|intros H _; exact (Hs3 s H)].
+    destruct (cfg_hasher c (default c)) as [h|]; [|intros H _; exact (Hs3 s H)].
+    destruct (hash_generate kdf h (o_salt o) pw) as [hs|]; [|intros H _; exact (Hs3 s H)].
+    intros H Hnr.
+    assert (Hd3 : t_dir (bump KRead (bump KOpen s1)) = d) by exact Hd.
+    rewrite <- Hd3.
+    eapply p_write_hash_err; [| | | |exact H|].
+    - now apply valid_not_tmp.
+    - rewrite Hd3. exact Hfresh.
+    - discriminate.
+    - intros _. rewrite Hd3. eauto.
+    - intros _ (a & b & Hin). apply Hnr. exists a, b. unfold events. now apply in_rev in Hin.
+  Qed.
 
   (* the full statement is false for update: the witness *)
   Theorem faulty_update_after_rename_refuted :
@@ -79,26 +1196,93 @@ Section Programs.
       tmp_name_fresh d o /\
       p_update (fun _ _ p => Some (1 :: p)) (Some ft) c d u pw o = (RErr, s) /\
       ~ same_store d (t_dir s).
-  Admitted.
+  Proof.
+    pose (hh := HArgon 1 1 1 1).
+    pose (cfg := {| params := [(1, hh)]; default := 1 |}).
+    pose (usr := str "a").
+    pose (content := print_record hh 0%Z 1 (url_enc [1] ++ [colon] ++ url_enc [1; 2])).
+    pose (dir0 := [(usr ++ ext_user, File content)] : dirst).
+    pose (orc := {| o_ts := 5%Z; o_salt := [3]; o_tmp := str "x"; o_order := [] |}).
+    pose (flt := {| f_kind := KFsync; f_occ := 1%nat; f_errno := EIO |}).
+    exists flt, cfg, dir0, usr, [7], orc.
+    exists (snd (p_update (fun _ _ p => Some (1 :: p)) (Some flt) cfg dir0 usr [7] orc)).
+    split; [reflexivity|]. split; [vm_compute; reflexivity|].
+    intros [H _]. specialize (H (usr ++ ext_user)).
+    assert (Hn : usr ++ ext_user <> tmp_name) by (vm_compute; discriminate).
+    specialize (H Hn). vm_compute in H. discriminate.
+  Qed.
 
   Theorem faulty_set_admin_unchanged ft d u adm s :
     p_set_admin (Some ft) d u adm = (RErr, s) ->
     ~ has_rename (events s) ->
     t_dir s = d.
-  Admitted.
+  Proof.
+    unfold p_set_admin.
+    destruct (valid_name u) eqn:Hv; cbn [negb]; [|intros H _; now injection H as <-].
+    destruct (p_exists (Some ft) u (t0 d)) as [ex s1] eqn:Ex.
+    apply p_exists_spec in Ex as (Hd & _ & _ & _). cbn [t_dir t0] in Hd.
+    destruct ex as [cur| |]; try (intros H _; now injection H as <-).
+    destruct (Bool.eqb cur adm); [discriminate|].
+    repeat (rewrite tick_eq; cbv beta iota). cbn [t_dir bump].
+    destruct (terr (Some ft) KRename (bump KStat s1)) as [e3|];
+      [intros H _; now injection H as <-|].
+    destruct (dlookup (u ++ ext_of cur) (t_dir s1)) as [n|];
+      [|intros H _; now injection H as <-].
+    match goal with |- context [if ?b then _ else _] => destruct b end;
+      [|intros H _; now injection H as <-].
+    repeat (rewrite tick_eq; cbv beta iota).
+    terr_cases; intros H Hnr; try discriminate; injection H as <-;
+      exfalso; apply Hnr; do 2 eexists; unfold events; apply in_rev; rewrite rev_involutive;
+      cbn [t_ev bump emit setdir In]; left; reflexivity.
+  Qed.
 
   (* a fault that does not make the operation fail does not change its effect *)
   Theorem faulty_add_success_same ft c d u pw adm o s :
     tmp_name_fresh d o ->
     p_add kdf (Some ft) c d u pw adm o = (ROk, s) ->
     exists s0, p_add kdf None c d u pw adm o = (ROk, s0) /\ same_store (t_dir s0) (t_dir s).
-  Admitted.
+  Proof.
+    intros _. unfold p_add.
+    destruct (valid_name u) eqn:Hv; cbn [negb]; [|discriminate].
+    destruct (p_exists (Some ft) u (t0 d)) as [ex s1] eqn:Ex.
+    destruct (p_exists None u (t0 d)) as [exn sn1] eqn:Exn.
+    apply p_exists_spec in Ex as (Hd & _ & Hex & _).
+    apply p_exists_spec in Exn as (Hdn & _ & _ & Hq). specialize (Hq I). cbn [t_dir t0] in *.
+    destruct ex; try discriminate.
+    destruct Hex as [Hex|Hex]; [|discriminate]. rewrite <- Hex in Hq. subst exn.
+    destruct (cfg_hasher c (default c)) as [h|]; [|discriminate].
+    destruct (hash_generate kdf h (o_salt o) pw) as [hs|]; [|discriminate].
+    intros H.
+    eapply p_write_hash_ok_sim with (sn := sn1) in H; [| now apply valid_not_tmp | congruence].
+    destruct H as (s0 & H0 & Hd0). exists s0. split; [exact H0|]. now apply same_store_eq.
+  Qed.
 
   Theorem faulty_update_success_same ft c d u pw o s :
     tmp_name_fresh d o ->
     p_update kdf (Some ft) c d u pw o = (ROk, s) ->
     exists s0, p_update kdf None c d u pw o = (ROk, s0) /\ same_store (t_dir s0) (t_dir s).
-  Admitted.
+  Proof.
+    intros _. unfold p_update.
+    destruct (valid_name u) eqn:Hv; cbn [negb]; [|discriminate].
+    destruct (p_exists (Some ft) u (t0 d)) as [ex s1] eqn:Ex.
+    destruct (p_exists None u (t0 d)) as [exn sn1] eqn:Exn.
+    apply p_exists_spec in Ex as (Hd & _ & Hex & _).
+    apply p_exists_spec in Exn as (Hdn & _ & _ & Hq). specialize (Hq I). cbn [t_dir t0] in *.
+    destruct ex as [admin| |]; try discriminate.
+    destruct Hex as [Hex|Hex]; [|discriminate]. rewrite <- Hex in Hq. subst exn.
+    repeat (rewrite tick_eq; cbv beta iota). rewrite !terr_none_None. cbv beta iota. cbn [t_dir bump].
+    destruct (terr (Some ft) KOpen s1) as [e2|]; [discriminate|].
+    destruct (terr (Some ft) KRead (bump KOpen s1)) as [e3|]; [discriminate|].
+    rewrite Hd, Hdn.
+    destruct (read_file d (u ++ ext_of admin)) as [content|]; [|discriminate].
+    destruct (is_supported c content); [|discriminate].
+    destruct (cfg_hasher c (default c)) as [h|]; [|discriminate].
+    destruct (hash_generate kdf h (o_salt o) pw) as [hs|]; [|discriminate].
+    intros H.
+    eapply p_write_hash_ok_sim with (sn := bump KRead (bump KOpen sn1)) in H;
+      [| now apply valid_not_tmp | cbn [t_dir bump]; congruence].
+    destruct H as (s0 & H0 & Hd0). exists s0. split; [exact H0|]. now apply same_store_eq.
+  Qed.
 
   (* ---------------- C03: footprint ---------------- *)
   Definition loc_allowed (u : bytes) (l : loc) : Prop :=
@@ -113,28 +1297,106 @@ Section Programs.
     | ERename a b => loc_allowed u a /\ loc_allowed u b
     end.
 
+  Lemma loc_local_allowed u b l : loc_local (u ++ ext_of b) l -> loc_allowed u l.
+  Proof. destruct l; cbn; auto. intros ->. destruct b; cbn [ext_of]; auto. Qed.
+
+  Lemma ev_local_allowed u b e : ev_local (u ++ ext_of b) e -> event_allowed u e.
+  Proof.
+    destruct e; cbn [ev_local event_allowed]; try apply loc_local_allowed.
+    intros [H1 H2]. split; eapply loc_local_allowed; eauto.
+  Qed.
+
+  Lemma footprint_wrap u (s : tstate) :
+    (valid_name u = false -> t_ev s = []) -> Forall (event_allowed u) (t_ev s) ->
+    (events s <> [] -> valid_name u = true) /\ Forall (event_allowed u) (events s).
+  Proof.
+    intros H1 H2. unfold events. split.
+    - intros Hne. destruct (valid_name u); [reflexivity|]. rewrite H1 in Hne by reflexivity.
+      now destruct Hne.
+    - now apply Forall_rev.
+  Qed.
+
   (* whatever the arguments, the directory content and the injected fault,
      every mutation concerns <u>.user, <u>.admin, the work area or the base
      directory itself - and u is a valid name *)
   Theorem footprint_add ft c d u pw adm o :
     let s := snd (p_add kdf ft c d u pw adm o) in
     (events s <> [] -> valid_name u = true) /\ Forall (event_allowed u) (events s).
-  Admitted.
+  Proof.
+    cbv zeta. apply footprint_wrap; unfold p_add.
+    - intros ->. reflexivity.
+    - destruct (valid_name u); cbn [negb snd]; [|constructor].
+      destruct (p_exists ft u (t0 d)) as [ex s1] eqn:Ex.
+      apply p_exists_spec in Ex as (_ & Hev & _). cbn [t_ev t0] in Hev.
+      assert (H1 : Forall (event_allowed u) (t_ev s1)) by (rewrite Hev; constructor).
+      destruct ex; try exact H1.
+      destruct (cfg_hasher c (default c)) as [h|]; [|exact H1].
+      destruct (hash_generate kdf h (o_salt o) pw) as [hs|]; [|exact H1].
+      apply p_write_hash_ev; [apply ev_local_allowed|exact H1].
+  Qed.
 
   Theorem footprint_update ft c d u pw o :
     let s := snd (p_update kdf ft c d u pw o) in
     (events s <> [] -> valid_name u = true) /\ Forall (event_allowed u) (events s).
-  Admitted.
+  Proof.
+    cbv zeta. apply footprint_wrap; unfold p_update.
+    - intros ->. reflexivity.
+    - destruct (valid_name u); cbn [negb snd]; [|constructor].
+      destruct (p_exists ft u (t0 d)) as [ex s1] eqn:Ex.
+      apply p_exists_spec in Ex as (_ & Hev & _). cbn [t_ev t0] in Hev.
+      assert (H1 : Forall (event_allowed u) (t_ev s1)) by (rewrite Hev; constructor).
+      destruct ex as [admin| |]; try exact H1.
+      repeat (rewrite tick_eq; cbv beta iota).
+      destruct (terr ft KOpen s1) as [e2|]; [exact H1|].
+      destruct (terr ft KRead (bump KOpen s1)) as [e3|]; [exact H1|].
+      destruct (read_file _ _) as [content|]; [|exact H1].
+      destruct (is_supported c content); [|exact H1].
+      destruct (cfg_hasher c (default c)) as [h|]; [|exact H1].
+      destruct (hash_generate kdf h (o_salt o) pw) as [hs|]; [|exact H1].
+      apply p_write_hash_ev; [apply ev_local_allowed|exact H1].
+  Qed.
 
   Theorem footprint_set_admin ft d u adm :
     let s := snd (p_set_admin ft d u adm) in
     (events s <> [] -> valid_name u = true) /\ Forall (event_allowed u) (events s).
-  Admitted.
+  Proof.
+    cbv zeta. apply footprint_wrap; unfold p_set_admin.
+    - intros ->. reflexivity.
+    - destruct (valid_name u); cbn [negb snd]; [|constructor].
+      destruct (p_exists ft u (t0 d)) as [ex s1] eqn:Ex.
+      apply p_exists_spec in Ex as (_ & Hev & _). cbn [t_ev t0] in Hev.
+      assert (H1 : Forall (event_allowed u) (t_ev s1)) by (rewrite Hev; constructor).
+      destruct ex as [cur| |]; try exact H1.
+      destruct (Bool.eqb cur adm); [exact H1|].
+      repeat (rewrite tick_eq; cbv beta iota).
+      destruct (terr ft KRename (bump KStat s1)) as [e3|]; [exact H1|].
+      destruct (dlookup _ _) as [n|]; [|exact H1].
+      match goal with |- context [if ?b then _ else _] => destruct b end; [|exact H1].
+      repeat (rewrite tick_eq; cbv beta iota).
+      assert (HP : forall e, ev_local (u ++ ext_of cur) e \/ ev_local (u ++ ext_of adm) e \/
+                             e = ERename (LFile (u ++ ext_of cur)) (LFile (u ++ ext_of adm)) ->
+                             event_allowed u e).
+      { intros e [H|[H| ->]]; try (eapply ev_local_allowed; exact H).
+        split; eapply loc_local_allowed; reflexivity. }
+      terr_cases; cbn [snd t_ev bump emit setdir];
+        repeat (apply Forall_cons; [apply HP; cbn; auto|]); exact H1.
+  Qed.
 
   Theorem footprint_remove ft d u :
     let s := p_remove_user ft d u in
     (events s <> [] -> valid_name u = true) /\ Forall (event_allowed u) (events s).
-  Admitted.
+  Proof.
+    cbv zeta. apply footprint_wrap; unfold p_remove_user.
+    - intros ->. reflexivity.
+    - destruct (valid_name u); cbn [negb]; [|constructor].
+      repeat (rewrite tick_eq; cbv beta iota).
+      assert (H2 : Forall (event_allowed u)
+                     (t_ev (p_remove ft (LFile (u ++ ext_user))
+                                     (p_remove ft (LFile (u ++ ext_admin)) (t0 d))))).
+      { apply p_remove_ev_forall; [cbn; auto|]. apply p_remove_ev_forall; [cbn; auto|]. constructor. }
+      terr_cases; cbn [t_ev bump emit]; try exact H2.
+      apply Forall_cons; [exact I|exact H2].
+  Qed.
 
   (* an invalid name: no system call at all *)
   Theorem invalid_name_no_syscall ft c d u pw adm o :
@@ -143,5 +1405,8 @@ Section Programs.
     p_update kdf ft c d u pw o = (RErr, t0 d) /\
     p_set_admin ft d u adm = (RErr, t0 d) /\
     p_remove_user ft d u = t0 d.
-  Admitted.
+  Proof.
+    intros H. unfold p_add, p_update, p_set_admin, p_remove_user. rewrite H. cbn [negb].
+    repeat split; reflexivity.
+  Qed.
 End Programs.
